@@ -19,6 +19,9 @@
 
 #include "judge.hpp"
 #include "optable.hpp"
+#ifdef HAVE_IO
+#include "io.hpp"
+#endif
 
 // AddressSanitizer stays in its default (fatal) mode: in recover mode it reports each code location only
 // once per process and dies after 25 locations, which would make in-process search blind to repeats.
@@ -542,7 +545,11 @@ int main( int argc, char** argv )
    const std::string cmd = argv[ 1 ];
    const Args a = parse_args( argc, argv, 2 );
    if( cmd == "run" ) {
-      return cmd_run( a );
+      const int rc = cmd_run( a );
+#ifdef HAVE_IO
+      sim::io_cleanup();
+#endif
+      return rc;
    }
    if( cmd == "replay" ) {
       return cmd_replay( a );
